@@ -654,3 +654,139 @@ func isLenOfValue(v ssa.Value, s ssa.Value) bool {
 	}
 	return resolveValue(call.Call.Args[0]) == s
 }
+
+func init() {
+	reg("R46", func(c *core.Ctx) { hIndexAligned(c, "R46", "snap.outersToPolygons") })
+	reg("R07", func(c *core.Ctx) { hIndexAligned(c, "R07", "geomhelp.FloatPolygonsToGeomPolygons") })
+	reg("R20", func(c *core.Ctx) { hAsKeys(c, "R20") })
+	reg("R13", func(c *core.Ctx) { hIsMember(c, "R13", "snap.isHitMultiple") })
+}
+
+// hIndexAligned: the result has as many elements as the argument and element i of the result is made of element i
+// of the argument and nothing else (a ring wrapped into a polygon, a polygon converted to the library's type), for
+// the counter i of a loop over the whole argument.
+func hIndexAligned(c *core.Ctx, R, name string) {
+	fn := helperFn(c, R, name)
+	if fn == nil {
+		return
+	}
+	construct := "helper-contract/" + name
+	in := ssa.Value(fn.Params[0])
+	why, nret := "", 0
+	for _, b := range fn.Blocks {
+		for _, instr := range b.Instrs {
+			ret, ok := instr.(*ssa.Return)
+			if !ok || len(ret.Results) != 1 {
+				continue
+			}
+			nret++
+			mk, ok := resolveValue(core.Unwrap(ret.Results[0])).(*ssa.MakeSlice)
+			if !ok || !isLenOfValue(mk.Len, in) {
+				why = "the result is not a fresh slice of len(argument) elements"
+				continue
+			}
+			stores := 0
+			for _, ref := range *mk.Referrers() {
+				ia, isIA := ref.(*ssa.IndexAddr)
+				if !isIA {
+					continue
+				}
+				for _, rr := range *ia.Referrers() {
+					st, isSt := rr.(*ssa.Store)
+					if !isSt || st.Addr != ssa.Value(ia) {
+						continue
+					}
+					stores++
+					if fullLoopOver(ia.Index, in) == nil && fullLoopOver(ia.Index, mk) == nil {
+						why = "the element written is not addressed by the counter of a loop over the whole argument"
+						continue
+					}
+					// the value: element i of the argument, possibly converted or wrapped in a one-element slice
+					vals := []ssa.Value{core.Unwrap(resolveValue(st.Val))}
+					if el := sliceLitElems(resolveValue(st.Val)); len(el) > 0 {
+						vals = el
+					}
+					for _, v := range vals {
+						src := sliceElemLoad(core.Unwrap(resolveValue(v)))
+						if src == nil || resolveValue(src.X) != in || resolveValue(src.Index) != resolveValue(ia.Index) {
+							why = "element i of the result is not made of element i of the argument"
+						}
+					}
+				}
+			}
+			if stores != 1 && why == "" {
+				why = fmt.Sprintf("%d stores into the result", stores)
+			}
+		}
+	}
+	c.Check(R, construct, fn.Pos(), why == "" && nret == 1, "result[i] is made of argument[i], for every i", name+": "+why)
+}
+
+// hAsKeys: AsKeys(elements) has exactly the elements as keys: one map update per element of a loop over the whole
+// slice, keyed by that element, into a fresh map that is returned.
+func hAsKeys(c *core.Ctx, R string) {
+	fn := helperFn(c, R, "mapslicehelp.AsKeys")
+	if fn == nil {
+		return
+	}
+	in := ssa.Value(fn.Params[0])
+	why, n := "", 0
+	var m ssa.Value
+	for _, b := range fn.Blocks {
+		for _, instr := range b.Instrs {
+			switch x := instr.(type) {
+			case *ssa.MapUpdate:
+				n++
+				m = x.Map
+				src := sliceElemLoad(core.Unwrap(resolveValue(x.Key)))
+				if src == nil || resolveValue(src.X) != in || fullLoopOver(src.Index, in) == nil && fullLoopOver(src.Index, src.X) == nil {
+					why = "the key is not the element of a loop over the whole slice"
+				}
+				if _, fresh := resolveValue(x.Map).(*ssa.MakeMap); !fresh {
+					why = "the map written is not a fresh one"
+				}
+			case *ssa.Return:
+				if m != nil && len(x.Results) == 1 && resolveValue(x.Results[0]) != resolveValue(m) {
+					why = "what is returned is not the map that was filled"
+				}
+			}
+		}
+	}
+	c.Check(R, "helper-contract/mapslicehelp.AsKeys", fn.Pos(), why == "" && n == 1, "a fresh map with one key per element", "AsKeys: "+why+" (the set of requested levels is made with it)")
+}
+
+// hIsMember: the helper answers exactly whether its second argument is a key of its first.
+func hIsMember(c *core.Ctx, R, name string) {
+	f := c.P.Lookup(name)
+	if f == nil || f.SSA == nil {
+		return // written in place
+	}
+	fn := f.SSA
+	why, n := "", 0
+	for _, b := range fn.Blocks {
+		for _, instr := range b.Instrs {
+			ret, ok := instr.(*ssa.Return)
+			if !ok || len(ret.Results) != 1 {
+				continue
+			}
+			n++
+			// a set kept as map[K]bool: the stored value is the answer
+			if plain, isLk := resolveValue(ret.Results[0]).(*ssa.Lookup); isLk && !plain.CommaOk && isBoolType(plain.Type()) {
+				if len(fn.Params) != 2 || resolveValue(plain.X) != ssa.Value(fn.Params[0]) || resolveValue(plain.Index) != ssa.Value(fn.Params[1]) {
+					why = "the lookup is not argument 1 in argument 0"
+				}
+				continue
+			}
+			ex, ok := resolveValue(ret.Results[0]).(*ssa.Extract)
+			if !ok || ex.Index != 1 {
+				why = "the answer is not the comma-ok result of a map lookup"
+				continue
+			}
+			lk, ok := ex.Tuple.(*ssa.Lookup)
+			if !ok || len(fn.Params) != 2 || resolveValue(lk.X) != ssa.Value(fn.Params[0]) || resolveValue(lk.Index) != ssa.Value(fn.Params[1]) {
+				why = "the lookup is not argument 1 in argument 0"
+			}
+		}
+	}
+	c.Check(R, "helper-contract/"+name, fn.Pos(), why == "" && n == 1, "key membership of the second argument in the first", name+": "+why)
+}
